@@ -49,8 +49,16 @@ def signature(clause: str, ev: dict, pre: dict) -> str:
         else:
             site = "archived-solution-does-not-cover"
     elif clause == "ReplaceRule":
-        for g, (old, new) in enumerate(zip(pre["cov"], post["cov"]), start=1):
-            if old["id"] and new["id"] and old != new:
+        cov = list(pre["cov"])
+        pairs = []
+        for st in ev["steps"]:           # the assignments the archive made, in order
+            pairs.append((st["g"], cov[st["g"] - 1], st["sol"]))
+            cov[st["g"] - 1] = st["sol"]
+        pairs += [(g, o, n) for g, (o, n) in enumerate(zip(cov, post["cov"]), start=1)]
+        for g, old, new in pairs:
+            legal = g in new["covers"] and ((_err(old) == "err" and _err(new) == "ok")
+                                            or new["size"] < old["size"])
+            if old["id"] and new["id"] and old != new and not legal:
                 offered = {s["id"] for s in ev["sols"]}
                 if new["id"] not in offered:
                     site = "replaced-by-unoffered-or-mutated"
@@ -82,13 +90,15 @@ def _detail(ev: dict, pre: dict) -> str:
                                            for q in p["sols"]]) for p in view["pops"]]
         return {"objs": view["objs"], "unc": view["unc"],
                 "cov": [(s["id"], s["size"], s["res"], s["covers"]) for s in view["cov"]]}
+    steps = [(st["g"], st["sol"]["id"], st["sol"]["size"], st["sol"]["res"]) for st in ev["steps"]]
     return (f"{CLS[ev['mode']]}.{METHOD.get(ev['op'], ev['op'])}(sols={ev['sols']}, gs={ev['gs']}, "
-            f"n={ev['n']}) : {json.dumps(short(pre))} -> {json.dumps(short(ev['post']))}")[:1500]
+            f"n={ev['n']}) : {json.dumps(short(pre))} -> {json.dumps(short(ev['post']))}"
+            f" assignments(goal,id,size,res)={steps}")[:1500]
 
 
 def _batches(ctx: Ctx):
     """Yield (name, behaviours): exhaustive MC_Archive configurations, then random long ones."""
-    cfgs = ["MC_Archive.cfg"]
+    cfgs = ["MC_Archive.cfg", "MC_Archive_pairs.cfg"]
     if not ctx.quick:
         cfgs += ["MC_Archive_t_cov3.cfg", "MC_Archive_t_cov2.cfg", "MC_Archive_t_mio3.cfg",
                  "MC_Archive_t_mio2.cfg", "MC_Archive_t_pop3.cfg"]
@@ -114,7 +124,7 @@ def _p1_one(job: dict) -> dict:
 
 
 def _judge(ctx: Ctx, traces: list[dict], behs: list, kind: str) -> None:
-    verdicts = ctx.validate("ArchiveTrace", traces, chunk=4000)
+    verdicts = ctx.validate("ArchiveTrace", traces, chunk=4000 if len(traces) < 12000 else 8000)
     for idx, bad in sorted(verdicts.items()):
         tr = traces[idx]
         for clause, step in bad:
@@ -142,8 +152,10 @@ def run(ctx: Ctx) -> None:
         "fitness come from stub fitness functions (one per goal) that answer from the abstract solution",
         "timeouts are modelled as ExecutionResult(timeout=True) without exceptions",
         "the design model assumes h = 1.0 iff fitness = 0.0; the replay does not (class 'tiny')",
-        "ReplaceRule is evaluated per public call: a replacement must be reachable by legal "
-        "replacements among the solutions offered in that call (one offered solution: exactly the rule)",
+        "ReplaceRule is evaluated on every assignment archive[goal] = solution the real "
+        "CoverageArchive makes (its _covered dict is replaced by a logging dict subclass); any "
+        "difference not explained by logged assignments must be reachable by legal replacements "
+        "among the solutions offered in that call",
         "strict-shorter applies to CoverageArchive only; reset() is excluded from CoveredGrows",
     ]
     ctx.design("Archive", "Archive.cfg" if ctx.quick else "Archive_thorough.cfg",
@@ -158,6 +170,14 @@ def run(ctx: Ctx) -> None:
 
     ctx.exhaustive = True
     counts = {}
+    pend_b: list = []
+    pend_t: list = []
+
+    def flush() -> None:
+        if pend_t:
+            _judge(ctx, pend_t, pend_b, "P2")
+        del pend_b[:], pend_t[:]
+
     for name, behs in _batches(ctx):
         counts[name] = len(behs)
         traces = parallel_map(ad.replay, behs, chunksize=64)
@@ -173,9 +193,12 @@ def run(ctx: Ctx) -> None:
                 if e["exc"]:
                     ctx.drift.append(f"P2: {CLS[e['mode']]}.{METHOD[e['op']]} raised {e['exc']}: "
                                      f"{_detail(e, pre)[:300]}")
-        _judge(ctx, traces, behs, "P2")
         ctx.sample(traces[len(traces) // 2]["ev"][-1])
-        del traces, behs
+        pend_b += behs
+        pend_t += traces
+        if len(pend_t) >= 24000:   # bound the memory of a thorough run
+            flush()
+    flush()
     ctx.notes["behaviours"] = counts
 
     if not ctx.quick:
